@@ -186,6 +186,10 @@ func checkC07(p *core.Program, r *core.Report) {
 		}
 		return out
 	}
+	// every operand is put to the cases: no path reaches the category decision without the call of matchCase
+	// (an operand that is an error value must still meet a has_error case before the default is taken)
+	r.Check(mcCall.Block().Dominates(rtcCall.Block()), "R3", "SwitchRouter.Route/cases-tried-for-every-operand", p.Pos(mcCall.Pos()), "matchCase dominates the category decision",
+		"SwitchRouter.Route reaches routeToCategory on a path that skips matchCase: for some operands (decided by "+condsOf(mcCall.Block())+") no case is tested and the default category is taken although an earlier case — has_error on a failed operand — matches")
 	ra := rtcCall.Call.Args // recv, run, step, categoryUUID, match, operand, extra, log
 	r.Check(extractOf(ra[3], mcCall)[1] && len(extractOf(ra[3], mcCall)) == 1, "R2", "SwitchRouter.Route/category<-matchCase#1", p.Pos(rtcCall.Pos()), "category UUID derives from matchCase's category result", "the category routed to does not come from matchCase's category result")
 	r.Check(extractOf(ra[4], mcCall)[0] && len(extractOf(ra[4], mcCall)) == 1, "R2", "SwitchRouter.Route/match<-matchCase#0", p.Pos(rtcCall.Pos()), "match derives from matchCase's match result", "the match saved does not come from matchCase's match result")
@@ -944,6 +948,18 @@ func c07R11(p *core.Program, r *core.Report) {
 	}
 	r.Count("parentless_fallback_lookups", n)
 	r.Require("parentless_fallback_lookups", n, 1)
+}
+
+// condsOf: the conditions a block depends on, for a report.
+func condsOf(b *ssa.BasicBlock) string {
+	var out []string
+	for _, ce := range core.MayConds(b) {
+		out = append(out, canonShort(ce.Cond))
+	}
+	if len(out) == 0 {
+		return "nothing"
+	}
+	return strings.Join(out, ", ")
 }
 
 // ---------------------------------------------------------------------------------------------- R12
